@@ -43,6 +43,20 @@ DELTA_Z = 2.0       # layer bottoms: base +- DELTA_Z
 MARGIN = 0.05       # a surface keeps this distance from the layer boundaries (rounding moves it by <= 0.005 * scale)
 
 
+class Rejected(Exception):
+    """the real API refused a value while it was being assigned (e.g. a validating property
+    setter): on that side of the fork there is no such geometry - not a round-trip matter"""
+
+
+def assign(obj, attr, value):
+    """obj.attr = value through whatever the real class does on assignment (plain attribute or
+    property setter)"""
+    try:
+        setattr(obj, attr, value)
+    except Exception as ex:
+        raise Rejected('%s.%s: %s: %s' % (type(obj).__name__, attr, type(ex).__name__, str(ex)[:80]))
+
+
 def base_topology(M, np_, shape):
     conv, atm, order = shape['convention'], shape['atmos'], shape.get('block_order')
     # 'order_history': the block order the geometry is CREATED with, followed by the values
@@ -88,6 +102,55 @@ def base_topology(M, np_, shape):
     return geo
 
 
+def derive(M, np_, geo, shape):
+    """shape['derive']: operations of the REAL API applied, in order, to the concrete base
+    topology before the values become symbolic - a "derived" geometry (renamed, refined,
+    reduced, split, rotated, translated).  Several of them leave the by-name dictionaries in
+    an order different from the ordered lists (rename_* pop and re-insert the key at the end,
+    refine_layers re-inserts the atmosphere layer last, split_column / rename_column re-key
+    connections): the lists are what defines the order in the file."""
+    kw = {}
+    if shape.get('case') == 'u':
+        from string import ascii_uppercase
+        kw['chars'] = ascii_uppercase
+    for op in shape.get('derive') or []:
+        what, args = op[0], list(op[1:])
+        if what == 'rename_layer':
+            # [i, num]: layer i gets the name of layer number num (None: its own name again,
+            # which is what refine_layers() does with the atmosphere layer)
+            old = geo.layerlist[args[0]].name
+            new = old if args[1] is None else geo.layer_name_from_number(args[1], **kw)
+            assert new == old or new not in geo.layer
+            ok = geo.rename_layer(old, new)
+            assert ok
+        elif what == 'rename_column':
+            old = geo.columnlist[args[0]].name
+            new = geo.column_name_from_number(args[1], **kw)
+            assert new not in geo.column
+            ok = geo.rename_column(old, new)
+            assert ok
+        elif what == 'refine_layers':
+            geo.refine_layers([geo.layerlist[i] for i in args[0]], factor=args[1] if len(args) > 1 else 2, **kw)
+        elif what == 'refine':
+            geo.refine([geo.columnlist[i] for i in args[0]], bisect=args[1] if len(args) > 1 else False, **kw)
+        elif what == 'reduce':
+            geo.reduce([geo.columnlist[i] for i in args[0]])
+        elif what == 'delete_column':
+            geo.delete_column(geo.columnlist[args[0]].name)
+            geo.setup_block_name_index(); geo.setup_block_connection_name_index()
+        elif what == 'split_column':
+            col = geo.columnlist[args[0]]
+            ok = geo.split_column(col.name, col.node[args[1]].name, **kw)
+            assert ok
+        elif what == 'rotate':
+            geo.rotate(args[0])
+        elif what == 'translate':
+            geo.translate(np_.array([float(v) for v in args[0]]))
+        else:
+            raise ValueError('unknown derive operation %r' % (op,))
+    return geo
+
+
 def name_pattern(shape, what):
     """pattern of the symbolic name: 'L' letter (either case), 'D' digit, ' ' blank."""
     conv = shape['convention']
@@ -99,6 +162,7 @@ def name_pattern(shape, what):
 def build(b, M, np_, shape):
     """-> (geometry, info).  b: value provider."""
     geo = base_topology(M, np_, shape)
+    derive(M, np_, geo, shape)
     for o in (shape.get('order_history') or [])[1:]:
         geo.block_order = o          # the real property setter (set_block_order_int, setup_block_name_index)
     unit = shape.get('unit', '')
@@ -107,18 +171,18 @@ def build(b, M, np_, shape):
     exact_z = shape.get('layers', 'high') in ('zeromid', 'zeromid2')
     info = dict(scale=s, written={})
     # --- header
-    geo.atmosphere_volume = b.real('atmvol', None, None, 'e', 10, 2, 1.0)
-    geo.atmosphere_connection = b.real('atmcon', None, None, 'e', 10, 2, 1.0)
-    geo.permeability_angle = b.real('angle', 0.0, 360.0, 'f', 10, 2, 1.0)
+    assign(geo, 'atmosphere_volume', b.real('atmvol', None, None, 'e', 10, 2, 1.0))
+    assign(geo, 'atmosphere_connection', b.real('atmcon', None, None, 'e', 10, 2, 1.0))
+    assign(geo, 'permeability_angle', b.real('angle', 0.0, 360.0, 'f', 10, 2, 1.0))
     if shape.get('gdc'):
-        geo.gdcx = b.real('gdcx', 0.0, 1.0, 'f', 10, 2, 1.0)
-        geo.gdcy = b.real('gdcy', 0.0, 1.0, 'f', 10, 2, 1.0)
+        assign(geo, 'gdcx', b.real('gdcx', 0.0, 1.0, 'f', 10, 2, 1.0))
+        assign(geo, 'gdcy', b.real('gdcy', 0.0, 1.0, 'f', 10, 2, 1.0))
     node0 = (float(geo.nodelist[0].pos[0]), float(geo.nodelist[0].pos[1]))
     ztop0 = float(geo.layerlist[0].bottom)
     # --- node positions
     for i, nod in enumerate(geo.nodelist):
         x0, y0 = float(nod.pos[0]), float(nod.pos[1])
-        nod.pos = np_.array([b.real('nx%d' % i, x0, DELTA_XY, 'f', 10, 2, s), b.real('ny%d' % i, y0, DELTA_XY, 'f', 10, 2, s)])
+        assign(nod, 'pos', np_.array([b.real('nx%d' % i, x0, DELTA_XY, 'f', 10, 2, s), b.real('ny%d' % i, y0, DELTA_XY, 'f', 10, 2, s)]))
     # the column polygons keep the orientation of the base mesh (precondition, see C03.py)
     b.orientation(geo, M)
     # --- specified centres
@@ -126,7 +190,7 @@ def build(b, M, np_, shape):
         col = geo.columnlist[(2 * k + 1) % len(geo.columnlist)]
         c0 = [float(col.centre[0]), float(col.centre[1])]
         col.centre_specified = 1
-        col.centre = np_.array([b.real('cx%d' % k, c0[0], DELTA_XY, 'f', 10, 2, s), b.real('cy%d' % k, c0[1], DELTA_XY, 'f', 10, 2, s)])
+        assign(col, 'centre', np_.array([b.real('cx%d' % k, c0[0], DELTA_XY, 'f', 10, 2, s), b.real('cy%d' % k, c0[1], DELTA_XY, 'f', 10, 2, s)]))
     # --- layers: bottoms symbolic; layer 0 is the atmosphere layer (bottom = centre = top);
     # centres are midpoints, as add_layers() makes them, or free values inside the layer
     free_centres = shape.get('centres', 'mid') == 'free'
@@ -134,16 +198,16 @@ def build(b, M, np_, shape):
     for k, lay in enumerate(geo.layerlist):
         z0 = float(lay.bottom)
         z = b.real('lz%d' % k, z0, DELTA_Z, 'f', 10, 2, s, exact=exact_z)
-        lay.bottom = z
+        assign(lay, 'bottom', z)
         if k == 0:
-            lay.centre = z
-            lay.top = z
+            assign(lay, 'centre', z)
+            assign(lay, 'top', z)
         else:
-            lay.top = prev
+            assign(lay, 'top', prev)
             if free_centres:
-                lay.centre = b.real_between('lc%d' % k, z, prev, 'f', 10, 2, s)
+                assign(lay, 'centre', b.real_between('lc%d' % k, z, prev, 'f', 10, 2, s))
             else:
-                lay.centre = b.derived('lc%d' % k, 0.5 * (z + prev), 'f', 10, 2, s, exact=exact_z)
+                assign(lay, 'centre', b.derived('lc%d' % k, 0.5 * (z + prev), 'f', 10, 2, s, exact=exact_z))
         prev = z
     # --- surfaces
     surf = shape.get('surfaces', 'none')
@@ -156,12 +220,12 @@ def build(b, M, np_, shape):
         if shape.get('attop') and n == 0:
             # an explicit surface EXACTLY at ground level (the value a column without a surface
             # entry has): it is not a default surface and must stay in the SURFA section
-            col.surface = geo.layerlist[0].bottom
+            assign(col, 'surface', geo.layerlist[0].bottom)
             geo.set_column_num_layers(col)
             continue
         if shape.get('attop') and n == 1:
             # anywhere within 1 of ground level (below, at or above it)
-            col.surface = b.real_between('surf%d' % ci, geo.layerlist[0].bottom - 1.0, geo.layerlist[0].bottom + 1.0, 'f', 10, 2, s, strict=False)
+            assign(col, 'surface', b.real_between('surf%d' % ci, geo.layerlist[0].bottom - 1.0, geo.layerlist[0].bottom + 1.0, 'f', 10, 2, s, strict=False))
             geo.set_column_num_layers(col)
             continue
         if n % 3 == 2 or shape.get('surface_above'):
@@ -169,8 +233,14 @@ def build(b, M, np_, shape):
         else:
             L = geo.layerlist[1 + (n % nlay)]
             lo, hi = L.bottom + MARGIN, L.top - MARGIN
-        col.surface = b.real_between('surf%d' % ci, lo, hi, 'f', 10, 2, s, strict=False)
+        assign(col, 'surface', b.real_between('surf%d' % ci, lo, hi, 'f', 10, 2, s, strict=False))
         geo.set_column_num_layers(col)
+    for ci, col in enumerate(geo.columnlist):
+        if ci not in which and not col.default_surface:
+            # refine() / split_column() hand the old surface to the new columns as an EXPLICIT
+            # surface: it follows the (now symbolic) ground level, explicitly, as in 'attop'
+            assign(col, 'surface', geo.layerlist[0].bottom)
+            geo.set_column_num_layers(col)
     # --- wells
     for wi, npts in enumerate(shape.get('wells', [])):
         name = ['  w 1', 'AB 12', 'well3'][wi]
@@ -190,22 +260,67 @@ def build(b, M, np_, shape):
         nod.name = b.name('nodename', name_pattern(shape, 'node'), [n.name for n in geo.nodelist if n is not nod])
         col.name = b.name('colname', name_pattern(shape, 'column'), [c_.name for c_ in geo.columnlist if c_ is not col] +
                           ([geo.atmosphere_column_name] if geo.atmosphere_type == 0 else []))
-        geo.node = dict((n.name, n) for n in geo.nodelist)
-        geo.column = dict((c_.name, c_) for c_ in geo.columnlist)
-        geo.connection = dict(((cn.column[0].name, cn.column[1].name), cn) for cn in geo.connectionlist)
+        # (the dictionaries keep their key ORDER, which derive operations may have made different
+        # from the order of the lists)
+        geo.node = dict((n.name, n) for n in list(geo.node.values()))
+        geo.column = dict((c_.name, c_) for c_ in list(geo.column.values()))
+        geo.connection = dict(((cn.column[0].name, cn.column[1].name), cn) for cn in list(geo.connection.values()))
     geo.setup_block_name_index()
     geo.setup_block_connection_name_index()
     return geo, info
 
 
 # ---------------------------------------------------------------------------
+# a geometry that was READ from a file is changed through the API and written again
+
+def edit(b, g, shape):
+    """shape['edit']: list of edits applied to the re-read geometry g before it is written
+    again.  -> set of the compared items whose value is new (not yet rounded by a file)."""
+    s = g.unit_scale
+    edited = set()
+    for e in shape.get('edit') or []:
+        if e == 'header':
+            assign(g, 'atmosphere_volume', b.real('atmvol2', None, None, 'e', 10, 2, 1.0))
+            assign(g, 'atmosphere_connection', b.real('atmcon2', None, None, 'e', 10, 2, 1.0))
+            assign(g, 'permeability_angle', b.real('angle2', 0.0, 360.0, 'f', 10, 2, 1.0))
+            edited |= set(['header atmosphere_volume', 'header atmosphere_connection', 'header permeability_angle'])
+        elif e == 'gdc':
+            assign(g, 'gdcx', b.real('gdcx2', 0.0, 1.0, 'f', 10, 2, 1.0))
+            assign(g, 'gdcy', b.real('gdcy2', 0.0, 1.0, 'f', 10, 2, 1.0))
+            edited |= set(['header gdcx', 'header gdcy'])
+        elif isinstance(e, (list, tuple)) and e[0] == 'block_order':
+            g.block_order = e[1]
+        elif isinstance(e, (list, tuple)) and e[0] == 'rename_layer':
+            # the layer gets its own name again (what refine_layers() does with layer 0)
+            nm = g.layerlist[e[1]].name
+            ok = g.rename_layer(nm, nm)
+            assert ok
+        elif isinstance(e, (list, tuple)) and e[0] == 'surface':
+            # column e[1] gets a (new) surface inside layer e[2]
+            col, L = g.columnlist[e[1]], g.layerlist[e[2]]
+            assign(col, 'surface', b.real_between('esurf%d' % e[1], L.bottom + MARGIN, L.top - MARGIN, 'f', 10, 2, s, strict=False))
+            g.set_column_num_layers(col)
+            g.setup_block_name_index(); g.setup_block_connection_name_index()
+            edited.add('column %d surface' % e[1])
+        else:
+            raise ValueError('unknown edit %r' % (e,))
+    return edited
+
+
+# ---------------------------------------------------------------------------
 # comparison of a written geometry a with the re-read one b_
 
-def compare(cmp, a, b_, exact=False, where=''):
+def compare(cmp, a, b_, exact=False, where='', edited=()):
     """exact=False: b_ was read from the file a wrote (values equal the printed
-    decimals); exact=True: a was itself read from a file (fixed point)."""
+    decimals); exact=True: a was itself read from a file (fixed point), except for
+    the items named in edited, which were assigned after the read."""
     s = a.unit_scale
     W = where
+    _real = cmp.real
+    def real(x, y, kind, p, scale, label, ex):
+        # (label without the stage prefix decides whether the value is a fresh one)
+        _real(x, y, kind, p, scale, label, ex and label[len(W):] not in edited)
+    cmp_real = real
     # --- header
     cmp.ob(b_.type == a.type, W + 'header type: same geometry type')
     cmp.ob(b_.convention == a.convention, W + 'header convention: same naming convention (%r -> %r)' % (a.convention, b_.convention))
@@ -216,11 +331,11 @@ def compare(cmp, a, b_, exact=False, where=''):
     cmp.ob(b_.unit_scale == a.unit_scale, W + 'header unit_scale: same length scale (%r -> %r)' % (a.unit_scale, b_.unit_scale))
     cmp.ob(b_.block_order == a.block_order, W + 'header block_order: same block ordering (%r -> %r)' % (a.block_order, b_.block_order))
     cmp.ob(b_._block_order_int == a._block_order_int, W + 'header block_order flag: same integer flag')
-    cmp.real(a.atmosphere_volume, b_.atmosphere_volume, 'e', 2, 1.0, W + 'header atmosphere_volume', exact)
-    cmp.real(a.atmosphere_connection, b_.atmosphere_connection, 'e', 2, 1.0, W + 'header atmosphere_connection', exact)
-    cmp.real(a.gdcx, b_.gdcx, 'f', 2, 1.0, W + 'header gdcx', exact)
-    cmp.real(a.gdcy, b_.gdcy, 'f', 2, 1.0, W + 'header gdcy', exact)
-    cmp.real(a.permeability_angle, b_.permeability_angle, 'f', 2, 1.0, W + 'header permeability_angle', exact)
+    cmp_real(a.atmosphere_volume, b_.atmosphere_volume, 'e', 2, 1.0, W + 'header atmosphere_volume', exact)
+    cmp_real(a.atmosphere_connection, b_.atmosphere_connection, 'e', 2, 1.0, W + 'header atmosphere_connection', exact)
+    cmp_real(a.gdcx, b_.gdcx, 'f', 2, 1.0, W + 'header gdcx', exact)
+    cmp_real(a.gdcy, b_.gdcy, 'f', 2, 1.0, W + 'header gdcy', exact)
+    cmp_real(a.permeability_angle, b_.permeability_angle, 'f', 2, 1.0, W + 'header permeability_angle', exact)
     cmp.ob(b_.cntype == a.cntype, W + 'header cntype: unset stays unset')
     # --- nodes
     cmp.ob(len(a.nodelist) == len(b_.nodelist), W + 'nodes count: same number of nodes (%d -> %d)' % (len(a.nodelist), len(b_.nodelist)))
@@ -228,7 +343,7 @@ def compare(cmp, a, b_, exact=False, where=''):
         cmp.text(na.name, nb.name, W + 'node %d name' % i)
         cmp.ob(nb.name in b_.node and b_.node[nb.name] is nb, W + 'node %d lookup: found under its name' % i)
         for d in (0, 1):
-            cmp.real(na.pos[d], nb.pos[d], 'f', 2, s, W + 'node %d %s' % (i, 'xy'[d]), exact)
+            cmp_real(na.pos[d], nb.pos[d], 'f', 2, s, W + 'node %d %s' % (i, 'xy'[d]), exact)
     # --- columns
     cmp.ob(len(a.columnlist) == len(b_.columnlist), W + 'columns count: same number of columns (%d -> %d)' % (len(a.columnlist), len(b_.columnlist)))
     for i, (ca, cb) in enumerate(zip(a.columnlist, b_.columnlist)):
@@ -240,10 +355,10 @@ def compare(cmp, a, b_, exact=False, where=''):
         cmp.ob(ia == ib, W + 'column %d nodes: same nodes in the same order (%r -> %r)' % (i, ia, ib))
         if ca.centre_specified and cb.centre_specified:
             for d in (0, 1):
-                cmp.real(ca.centre[d], cb.centre[d], 'f', 2, s, W + 'column %d specified centre %s' % (i, 'xy'[d]), exact)
+                cmp_real(ca.centre[d], cb.centre[d], 'f', 2, s, W + 'column %d specified centre %s' % (i, 'xy'[d]), exact)
         cmp.ob(cb.default_surface == ca.default_surface, W + 'column %d surface flag: default surface stays default, set surface stays set (%r -> %r)' % (i, ca.default_surface, cb.default_surface))
         if not ca.default_surface and not cb.default_surface:
-            cmp.real(ca.surface, cb.surface, 'f', 2, s, W + 'column %d surface' % i, exact)
+            cmp_real(ca.surface, cb.surface, 'f', 2, s, W + 'column %d surface' % i, exact)
         elif ca.default_surface and cb.default_surface and len(b_.layerlist) > 0:
             cmp.same(cb.surface, b_.layerlist[0].bottom, W + 'column %d default surface: equals ground level' % i)
         cmp.ob(cb.num_layers == ca.num_layers, W + 'column %d num_layers: same number of layers below the surface (%r -> %r)' % (i, ca.num_layers, cb.num_layers))
@@ -262,18 +377,20 @@ def compare(cmp, a, b_, exact=False, where=''):
     cmp.ob(len(a.layerlist) == len(b_.layerlist), W + 'layers count: same number of layers (%d -> %d)' % (len(a.layerlist), len(b_.layerlist)))
     for i, (la, lb) in enumerate(zip(a.layerlist, b_.layerlist)):
         cmp.text(la.name, lb.name, W + 'layer %d name' % i)
-        cmp.real(la.bottom, lb.bottom, 'f', 2, s, W + 'layer %d bottom' % i, exact)
-        cmp.real(la.centre, lb.centre, 'f', 2, s, W + 'layer %d centre' % i, exact)
+        cmp.ob(lb.name in b_.layer and b_.layer[lb.name] is lb, W + 'layer %d lookup: found under its name' % i)
+        cmp_real(la.bottom, lb.bottom, 'f', 2, s, W + 'layer %d bottom' % i, exact)
+        cmp_real(la.centre, lb.centre, 'f', 2, s, W + 'layer %d centre' % i, exact)
         above = b_.layerlist[i - 1].bottom if i > 0 else lb.bottom
         cmp.same(lb.top, above, W + 'layer %d top: bottom of the layer above' % i)
     # --- wells
     cmp.ob(len(a.welllist) == len(b_.welllist), W + 'wells count: same number of wells (%d -> %d)' % (len(a.welllist), len(b_.welllist)))
     for i, (wa, wb) in enumerate(zip(a.welllist, b_.welllist)):
         cmp.text(wa.name, wb.name, W + 'well %d name' % i)
+        cmp.ob(wb.name in b_.well and b_.well[wb.name] is wb, W + 'well %d lookup: found under its name' % i)
         cmp.ob(len(wa.pos) == len(wb.pos), W + 'well %d points: same number of track points (%d -> %d)' % (i, len(wa.pos), len(wb.pos)))
         for j, (pa, pb) in enumerate(zip(wa.pos, wb.pos)):
             for d in (0, 1, 2):
-                cmp.real(pa[d], pb[d], 'f', 1, s, W + 'well %d point %d %s' % (i, j, 'xyz'[d]), exact)
+                cmp_real(pa[d], pb[d], 'f', 1, s, W + 'well %d point %d %s' % (i, j, 'xyz'[d]), exact)
     # --- derived name lists
     cmp.names(a.block_name_list, b_.block_name_list, W + 'block_name_list')
     cmp.names(a.block_connection_name_list, b_.block_connection_name_list, W + 'block_connection_name_list')
